@@ -124,7 +124,11 @@ func runCheck(id, tier string, seed int64) int {
 			fmt.Printf("   %-34s not run (a counterexample of this property is already confirmed; GOSX_ALL_HARNESSES=1 runs everything)\n", spec.Name)
 			continue
 		}
-		res := explore(ld, spec, tier, seed, 16, "", func(v Violation) bool {
+		smtLog := ""
+		if tier == "thorough" {
+			smtLog = filepath.Join(nat.dir, "stream-"+spec.Name+".smt2")
+		}
+		res := explore(ld, spec, tier, seed, 16, smtLog, func(v Violation) bool {
 			if known.match(id, spec.Name, v.Label) != nil {
 				return false // a listed finding does not end the search for others
 			}
@@ -141,6 +145,12 @@ func runCheck(id, tier string, seed int64) int {
 			return false
 		})
 		confirmAndValidate(nat, res, tier, seed)
+		if smtLog != "" {
+			// diff of two solvers on this run's own encoding: worker 0's stream (z3 4.8.12, or cvc5 for the arithmetic
+			// profile) is replayed on z3 5.1.0
+			res.CrossCompared, res.CrossDisagree, res.CrossNote = crossCheck(smtLog, "z3-new", []string{"-in"}, 3*time.Minute)
+			os.Remove(smtLog)
+		}
 		results = append(results, res)
 		status := "holds"
 		inconclusive := []string{}
@@ -173,6 +183,9 @@ func runCheck(id, tier string, seed int64) int {
 					inconclusive = append(inconclusive, "Msg RPC without a harness case (add it to "+spec.Name+"): "+rpc)
 				}
 			}
+		}
+		if len(res.CrossDisagree) > 0 {
+			inconclusive = append(inconclusive, fmt.Sprintf("%d solver disagreements on the logged stream (first: %s)", len(res.CrossDisagree), res.CrossDisagree[0]))
 		}
 		if len(res.Unconfirmed) > 0 {
 			inconclusive = append(inconclusive, fmt.Sprintf("%d counterexample(s) did not reproduce natively (first: %s)", len(res.Unconfirmed), res.Unconfirmed[0].Label))
@@ -331,7 +344,7 @@ func writeEvidence(prop *Property, tier string, seed int64, results []*HarnessRe
 		hs = append(hs, map[string]any{
 			"name": r.Spec.Name, "bounds": r.Bounds, "solver_profile": r.Spec.Profile, "paths": r.Paths, "outcomes": r.Outcomes,
 			"decisions": r.Decisions, "ssa_steps": r.Steps, "queries": r.Queries, "unknown": r.Unknown, "solver_time_s": r.SolverTime.Seconds(),
-			"max_query_s": r.MaxQuery.Seconds(), "explore_wall_s": r.Wall.Seconds(), "cover_labels": r.Covers, "timed_out": r.TimedOut, "watchdog_kills": r.Watchdog, "stopped_at_first_confirmed_counterexample": r.StoppedEarly,
+			"max_query_s": r.MaxQuery.Seconds(), "explore_wall_s": r.Wall.Seconds(), "cover_labels": r.Covers, "timed_out": r.TimedOut, "cross_check_third_solver": map[string]any{"solver": "z3 5.1.0 (z3-new)", "answers_compared": r.CrossCompared, "disagreements": r.CrossDisagree, "note": r.CrossNote}, "watchdog_kills": r.Watchdog, "stopped_at_first_confirmed_counterexample": r.StoppedEarly,
 			"symbolic_counterexamples": len(r.Violations), "confirmed_natively": len(r.Confirmed), "unconfirmed": len(r.Unconfirmed),
 			"traces_validated_against_impl": r.TracesValidated, "trace_mismatches": len(r.TraceMismatches), "non_ok_path_messages": msgs, "note": r.Spec.Note,
 		})
